@@ -5,6 +5,7 @@
                                  filters, early return at the limit, tail ring, order-by
                                  collection + sort + truncation), filterSegments,
                                  segmentMatchesOffsets, segmentMatchesTimestamps, appendTailRow
+     internal/discovery/time_index_builder.go  TimeIndexBuilder.scanSegment (the .kfst footer numbers)
      internal/discovery/discovery.go  s3Lister.ListCompleted: statistics attached to a listed
                                  segment (MinOffset = base offset; MaxOffset = next segment's base
                                  - 1 within the same topic/partition, else the .kfst footer's
@@ -198,6 +199,22 @@ Record raw_segment := mkRaw {
   w_footer : option (Z * Z * Z * Z);     (* .kfst footer: min ts, max ts, min offset, max offset *)
   w_recs : list rec
 }.
+
+(* TimeIndexBuilder.scanSegment (time_index_builder.go): the .kfst footer written for a
+   segment: minimum and maximum of timestamps and offsets over the decoded records,
+   starting from the first record; no footer for a segment without records *)
+Definition scan_step (acc : Z * Z * Z * Z) (r : rec) : Z * Z * Z * Z :=
+  let '(mint, maxt, mino, maxo) := acc in
+  (if r_ts r <? mint then r_ts r else mint,
+   if maxt <? r_ts r then r_ts r else maxt,
+   if r_off r <? mino then r_off r else mino,
+   if maxo <? r_off r then r_off r else maxo).
+
+Definition scan_segment (recs : list rec) : option (Z * Z * Z * Z) :=
+  match recs with
+  | [] => None
+  | r0 :: rest => Some (fold_left scan_step rest (r_ts r0, r_ts r0, r_off r0, r_off r0))
+  end.
 
 (* the listing is sorted by (topic, partition, base); findNextSegment looks at the next entry *)
 Definition next_base (w : raw_segment) (rest : list raw_segment) : option Z :=
